@@ -413,10 +413,12 @@ SStepRet ==
            stack' = SetTop([Top EXCEPT !.rs = IF shouldSkip[el] THEN FALSE ELSE Top.rs, !.pc = "steps", !.i = k + 1])
       ELSE stack' = SetTop([Top EXCEPT !.rs = cfg.cont /\ HasFailed(stepst[el][k]), !.failed = TRUE, !.pc = "steps", !.i = k + 1])
    /\ U(<<inputs, ret, model, rt, ctx, cap, evlog>>)
-SFinish ==
+SFinish ==      \* special case: a scenario that does not run and has no steps of its own is set to skipped
    /\ Top.fn = "scenario" /\ Top.pc = "finish"
    /\ stack' = SetTop([Top EXCEPT !.pc = IF Top.hc THEN "ahook" ELSE "pop"])
-   /\ U(<<inputs, ret, model, rt, ctx, cap, evlog>>)
+   /\ forced' = IF ~Top.sr /\ ~(\E k \in DOMAIN Steps(Top.el) : Steps(Top.el)[k].org = "own")
+                THEN [forced EXCEPT ![Top.el] = "skipped"] ELSE forced
+   /\ U(<<inputs, ret, stepst, hookFailed, shouldSkip, rt, ctx, cap, evlog>>)
 SAfterHook ==
    /\ Top.fn = "scenario" /\ Top.pc = "ahook"
    /\ LET el == Top.el IN
